@@ -74,6 +74,55 @@ func (c *Ctx) reach(roots []*ssa.Function) *reachInfo {
 	return ri
 }
 
+// reachMethodsOnly: like reach, but an edge from a function outside the module into the module is
+// followed only when the callee is a method (interface callbacks such as sort.Interface, Stringer,
+// error, io.Writer); plain functions and closures of the module are entered only from module code.
+func (c *Ctx) reachMethodsOnly(roots []*ssa.Function) *reachInfo {
+	cg := c.callGraph()
+	ri := &reachInfo{parent: map[*ssa.Function]*ssa.Function{}}
+	var q []*ssa.Function
+	for _, r := range roots {
+		if _, ok := ri.parent[r]; !ok {
+			ri.parent[r] = nil
+			q = append(q, r)
+		}
+	}
+	for len(q) > 0 {
+		f := q[0]
+		q = q[1:]
+		ri.order = append(ri.order, f)
+		n := cg.Nodes[f]
+		if n == nil {
+			continue
+		}
+		fromModule := strings.HasPrefix(fnPkgPath(f), modPath)
+		var outs []*ssa.Function
+		for _, e := range n.Out {
+			g := e.Callee.Func
+			if !fromModule && strings.HasPrefix(fnPkgPath(g), modPath) && g.Signature.Recv() == nil {
+				continue
+			}
+			outs = append(outs, g)
+		}
+		sort.Slice(outs, func(i, j int) bool { return outs[i].String() < outs[j].String() })
+		for _, g := range outs {
+			if _, ok := ri.parent[g]; !ok {
+				ri.parent[g] = f
+				q = append(q, g)
+			}
+		}
+		if fromModule {
+			for _, an := range f.AnonFuncs {
+				if _, ok := ri.parent[an]; !ok {
+					ri.parent[an] = f
+					q = append(q, an)
+				}
+			}
+		}
+	}
+	return ri
+}
+
 func (ri *reachInfo) has(f *ssa.Function) bool {
 	_, ok := ri.parent[f]
 	return ok
